@@ -1039,6 +1039,74 @@ func (m LazyArgumentMap) jsonPath(p string) json.Marshaler {
 	}
 }
 
+// typedPath works like jsonPath for a set of outputs with the given
+// parameters, except that it goes by the type of each value on the way
+// rather than by its keys to tell a typed map, which the path projects
+// through, from a struct.  A typed map may have a key which is also the name
+// of a member of its values.
+func (m LazyArgumentMap) typedPath(p string, params *syntax.OutParams,
+	lookup *syntax.TypeLookup) json.Marshaler {
+	i := strings.IndexRune(p, '.')
+	if i < 0 || params == nil || lookup == nil {
+		return m.jsonPath(p)
+	}
+	param := params.Table[p[:i]]
+	if param == nil {
+		return m.jsonPath(p)
+	}
+	return typedJsonPath(m[p[:i]], p[i+1:], lookup.Get(param.GetTname()), lookup)
+}
+
+func typedJsonPath(msg json.RawMessage, p string,
+	t syntax.Type, lookup *syntax.TypeLookup) json.Marshaler {
+	if p == "" {
+		return msg
+	}
+	msg = json.RawMessage(bytes.TrimSpace(msg))
+	if len(msg) == 0 || bytes.Equal(msg, nullBytes) {
+		return msg
+	}
+	switch t := t.(type) {
+	case *syntax.ArrayType:
+		var arr []json.RawMessage
+		if msg[0] != '[' || json.Unmarshal(msg, &arr) != nil {
+			return jsonPath(msg, p)
+		}
+		et := lookup.GetArray(t, -1)
+		result := make(marshallerArray, len(arr))
+		for i, v := range arr {
+			result[i] = typedJsonPath(v, p, et, lookup)
+		}
+		return result
+	case *syntax.TypedMapType:
+		var m LazyArgumentMap
+		if msg[0] != '{' || json.Unmarshal(msg, &m) != nil {
+			return jsonPath(msg, p)
+		}
+		result := make(marshallerArray, 0, len(m))
+		for _, v := range m {
+			result = append(result, typedJsonPath(v, p, t.Elem, lookup))
+		}
+		return result
+	case *syntax.StructType:
+		var m LazyArgumentMap
+		if msg[0] != '{' || json.Unmarshal(msg, &m) != nil {
+			return jsonPath(msg, p)
+		}
+		key, rest := p, ""
+		if i := strings.IndexRune(p, '.'); i >= 0 {
+			key, rest = p[:i], p[i+1:]
+		}
+		member := t.Table[key]
+		if member == nil {
+			return jsonPath(msg, p)
+		}
+		return typedJsonPath(m[key], rest, lookup.Get(member.Tname), lookup)
+	default:
+		return jsonPath(msg, p)
+	}
+}
+
 func jsonPath(msg json.RawMessage, p string) json.Marshaler {
 	if p == "" {
 		return msg
